@@ -835,7 +835,12 @@ def _copy_prop(fn):
                         # y exists only to be copied into x:  y = E ; ... (x not mentioned) ... ; x = y   ->   x = E ; ...
                         ydef = [s2 for s2 in _own_walk(fn) if isinstance(s2, ast.Assign) and len(s2.targets) == 1
                                 and isinstance(s2.targets[0], ast.Name) and s2.targets[0].id == y]
+                        # an earlier value of x could still be observed by a handler if something between the two raises
+                        earlier_x = any(isinstance(n_, ast.Name) and n_.id == x and not isinstance(n_.ctx, ast.Load) and getattr(n_, 'lineno', 0) < st.lineno
+                                        for n_ in _own_walk(fn)) or x in params_
+                        in_try = any(isinstance(o_, ast.Try) for o_, _b, _i in _chain(fn, st))
                         if len(ydef) == 1 and ydef[0].lineno < st.lineno and not _in_loop(fn, ydef[0]) and _dominating_list(fn, ydef[0], st) \
+                                and not (earlier_x and in_try) \
                                 and not any(isinstance(n_, ast.Name) and n_.id == x and ydef[0].lineno <= getattr(n_, 'lineno', 0) < st.lineno
                                             for n_ in _own_walk(fn)) \
                                 and not any(isinstance(n_, ast.Name) and n_.id == x for n_ in ast.walk(ydef[0])):
@@ -1655,7 +1660,16 @@ def _beta_reduce(fn):
                 if any(c.keywords or len(c.args) != len(params) or any(isinstance(x, ast.Starred) for x in c.args) for c in calls):
                     continue
                 reads = {p_: sum(1 for n in ast.walk(lam.body) if isinstance(n, ast.Name) and n.id == p_) for p_ in params}
-                if any(not _simple_arg(x) and reads[p_] != 1 for c in calls for p_, x in zip(params, c.args)):
+                order = _exec_order(lam.body)
+
+                def first_and_certain(p_):
+                    # the parameter's one read is unconditional and nothing with an effect is evaluated before it
+                    k_ = [i for i, (n, _c) in enumerate(order) if isinstance(n, ast.Name) and n.id == p_]
+                    return len(k_) == 1 and not order[k_[0]][1] and not any(isinstance(n, (ast.Call, ast.Subscript, ast.Attribute))
+                                                                            for n, _c in order[:k_[0]])
+                if any(not _simple_arg(x) and not (reads[p_] == 1 and first_and_certain(p_)) for c in calls for p_, x in zip(params, c.args)):
+                    continue
+                if any(sum(1 for x in c.args if not _simple_arg(x)) > 1 for c in calls):
                     continue
                 for c in calls:
                     new = _SubstMany({}, dict(zip(params, c.args))).visit(fast_copy(lam.body))
@@ -2684,11 +2698,92 @@ def _inline_new_helpers(tree, relpath):
             return out
         return None
 
+    def sink_tail_calls(fnode, cls):
+        """the function ends in an if-chain of which two or more arms end by calling the same new helper as a statement:
+
+            if a:   A...; h(E1)                  if a:   A...; p = E1
+            elif b: B...; h(E2)          ->      elif b: B...; p = E2
+            [else:  C...]                        else:   C...; return
+                                                 h(p)
+
+        so that the helper's body appears once (it is what the arms had in common before it was extracted)."""
+        last = fnode.body[-1] if fnode.body else None
+        if not isinstance(last, ast.If):
+            return
+        arms = []          # (owner If, field)
+
+        def leaves(n_):
+            arms.append((n_, 'body'))
+            if len(n_.orelse) == 1 and isinstance(n_.orelse[0], ast.If):
+                leaves(n_.orelse[0])
+            else:
+                arms.append((n_, 'orelse'))
+        leaves(last)
+        callers = []
+        for o_, f_ in arms:
+            lst = getattr(o_, f_)
+            st_ = lst[-1] if lst else None
+            if isinstance(st_, ast.Expr):
+                v_ = st_.value
+                aw = isinstance(v_, ast.Await)
+                c_ = v_.value if aw else v_
+                if isinstance(c_, ast.Call) and not c_.keywords:
+                    tail_ok[0] = True
+                    try:
+                        got = helper_of(c_, cls)
+                    finally:
+                        tail_ok[0] = False
+                    if got is not None and isinstance(got[0], ast.AsyncFunctionDef) == aw:
+                        callers.append((o_, f_, c_, got[1], aw))
+        if len(callers) < 2 or len({(k_, aw, len(c_.args), ast.dump(c_.func)) for _o, _f, c_, k_, aw in callers}) != 1:
+            return
+        for o_, f_ in arms:
+            if any(o_ is c[0] and f_ == c[1] for c in callers):
+                continue
+            lst = getattr(o_, f_)
+            if lst and not isinstance(lst[-1], (ast.Return, ast.Raise)):
+                lst.append(ast.copy_location(ast.Return(value=None), lst[-1]))
+            elif not lst:
+                setattr(o_, f_, [ast.copy_location(ast.Return(value=None), o_)])
+        h = helpers[callers[0][3]]
+        params = [a.arg for a in h.args.args]
+        if params and params[0] in ('self', 'cls') and not h._verif_static:
+            params = params[1:]
+        nargs = len(callers[0][2].args)
+        if len(params) < nargs:
+            return
+        counter[0] += 1
+        names = []
+        for i in range(nargs):
+            same = len({ast.dump(c[2].args[i]) for c in callers}) == 1 and _simple_arg(callers[0][2].args[i])
+            names.append(None if same else f'{params[i]}__sunk{counter[0]}')
+        first = callers[0]
+        for o_, f_, c_, _k, _aw in callers:
+            lst = getattr(o_, f_)
+            st_ = lst.pop()
+            for i, nm in enumerate(names):
+                if nm is not None:
+                    lst.append(ast.copy_location(ast.Assign(targets=[ast.copy_location(ast.Name(id=nm, ctx=ast.Store()), st_)], value=c_.args[i]), st_))
+            if not lst:
+                lst.append(ast.copy_location(ast.Pass(), st_))
+        call = ast.Call(func=fast_copy(first[2].func), args=[fast_copy(first[2].args[i]) if nm is None else ast.Name(id=nm, ctx=ast.Load())
+                                                             for i, nm in enumerate(names)], keywords=[])
+        val = ast.Await(value=call) if first[4] else call
+        new_st = ast.Expr(value=val)
+        end = max(getattr(x, 'end_lineno', None) or getattr(x, 'lineno', 0) for x in ast.walk(last) if hasattr(x, 'lineno'))
+        for x in ast.walk(new_st):
+            if isinstance(x, (ast.stmt, ast.expr)):
+                ast.copy_location(x, last)
+                x.lineno = x.end_lineno = end + 0.5
+        fnode.body.append(new_st)
+
     def rewrite(node, cls):
         for fld in ('body', 'orelse', 'finalbody'):
             body = getattr(node, fld, None)
             if not (isinstance(body, list) and body and isinstance(body[0], ast.stmt)):
                 continue
+            if isinstance(node, (ast.FunctionDef, ast.AsyncFunctionDef)) and fld == 'body':
+                sink_tail_calls(node, cls)
             if isinstance(node, (ast.FunctionDef, ast.AsyncFunctionDef)) and fld == 'body' and len(body) >= 2:
                 # `if C: x = h(...)` + `return x` at the function's tail, h a helper of several exits:
                 # `if not C: return x` + `return h(...)`  - the form the tail inliner reads
